@@ -300,6 +300,11 @@ func runcacheCmd(args []string) error {
 					if len(data) > 1 {
 						k = (oi*7 + len(data)/2) % len(data)
 					}
+					// a torn write is a prefix that is no longer a complete document (whatever layout the cache file has: a prefix
+					// that merely lacks trailing white space still is one)
+					for k > 0 && json.Valid(data[:k]) {
+						k--
+					}
 					os.WriteFile(cachePath, data[:k], 0o644)
 					crashFree = false
 				}
@@ -381,6 +386,11 @@ func runcacheCmd(args []string) error {
 					st.Outcomes["err "+kind]++
 					if kind == "cache" && len(rr.log) > 0 {
 						fail("C10", "a run that reported a cache error had already executed "+exs)
+					}
+					if crashFree && kind != "hash" && kind != "abort" {
+						// nothing was killed and the cache file was never torn: the only legitimate reasons for a run to stop are a
+						// dependency file that cannot be read and a failing command
+						fail("C02", fmt.Sprintf("op %d: in a crash-free history the run stopped with an error that no command and no dependency file caused, instead of running or skipping its tasks: %s", oi, m))
 					}
 					if diskSummary() == "X" && kind != "cache" {
 						fail("C10", "the cache file is damaged but the run did not stop with a cache error: "+m)
